@@ -518,17 +518,18 @@ def _scope_after(fn, decl):
     return out
 
 
-def r16_no_relock(run, rule='R16', floor=2):
+def r16_no_relock(run, rule='R16', floor=2, fns=None):
     fx = run.fx
     import p04
+    fns = list(fns) if fns is not None else list(fx.repo_functions())
     locks = {}
-    for fn in fx.repo_functions():
+    for fn in fns:
         if fn.cfg is None:
             continue
         for d, v, m in lock_decls(fn):
             locks.setdefault(fn.usr, set()).add(m)
     n = 0
-    for fn in fx.repo_functions():
+    for fn in fns:
         if fn.cfg is None:
             continue
         for d, v, m in lock_decls(fn):
